@@ -232,26 +232,27 @@ def worker_exit_rule(run, f, rid):
     if len(cands) != 1:
         run.fail(rid, "worker-loop/exit", host.loc(), "the worker loop (closure of try_grow calling try_run) was not found")
         return
-    b = inl(f, cands[0], keep=(POOL + "::try_run", POOL + "::can_recycle"))
+    # can_recycle() is spliced in, so `pool.can_recycle()` and an inlined `match pool.state() { Running => false, _ => true }`
+    # are the same thing to the rule: "the pool's state is not Running"
+    b = inl(f, cands[0], keep=(POOL + "::try_run", POOL + "::state"), force=(POOL + "::can_recycle",))
     du = DefUse(b)
     cfg = Cfg(b)
-    cr = find_calls(b, callee_is(POOL + "::can_recycle"))
+    st = find_calls(b, callee_is(POOL + "::state"))
     tr = find_calls(b, callee_is(POOL + "::try_run"))
-    if len(cr) != 1 or len(tr) != 1:
-        run.fail(rid, "worker-loop/exit", b.loc(), "expected one try_run and one can_recycle test in the worker loop (found %d / %d)" % (len(tr), len(cr)))
+    if not st or len(tr) != 1:
+        run.fail(rid, "worker-loop/exit", b.loc(), "expected one try_run and a test of the pool state (can_recycle) in the worker loop (found %d / %d)" % (len(tr), len(st)))
         return
-    # one round: acyclic continuations from the try_run call.  A continuation either reaches a return (the worker ends) or
-    # runs into the loop's back edge (the walker ends such a path without a "return": the worker goes round again)
+    cr = st
     w = PathWalker(b)
     n_ex = n_und = bad = 0
     T = tr[0][0]
     rounds = []
     for start in cfg.after(T):
         # the walker emits a path only at a stop: stop at a return, and when the try_run call is reached AGAIN (one round)
-        for (p_, _c, sv) in w.walk(start, lambda bid, t: ("return",) if t["k"] == "return" else (("again",) if bid == T else None)):
+        for (p_, c_, sv) in w.walk(start, lambda bid, t: ("return",) if t["k"] == "return" else (("again",) if bid == T else None)):
             if sv[0] in ("return", "again"):
-                rounds.append(([T] + list(p_), sv))
-    for (pth, sv) in rounds:
+                rounds.append(([T] + list(p_), c_, sv))
+    for (pth, conds, sv) in rounds:
         if sv[0] == "return":
             n_ex += 1
             continue              # the worker ends: nothing to demand
@@ -259,16 +260,16 @@ def worker_exit_rule(run, f, rid):
         oc, feas = result_outcomes(b, du, pth)
         if not feas:
             continue
-        if oc.get(tr[0][0]) == "ok":
+        if oc.get(T) == "ok":
             n_ex += 1
             continue              # a busy round (a task was run): going round again is the point
-        # an idle round that goes round again: it must have asked can_recycle() and been told no.  A round that never asks
-        # (the test short-circuited away behind `expired && ..`) keeps a worker of a stopping pool alive just the same.
+        # an idle round that goes round again: the path must have established that the pool is Running (may not be recycled).
+        # A round that never looks at the state (the test short-circuited away behind `expired && ..`) keeps a worker of a
+        # stopping pool alive just the same.
         n_ex += 1
-        v = outcome_on_path(b, du, pth, cr[0][0]) if cr[0][0] in pth else "not-asked"
-        if v is None:
-            n_und += 1
-        elif v is not False:
+        if not any(x in pth for (x, _t) in st):
+            bad += 1
+        elif enum_facts(conds, ("Running", "Stopping", "Stopped")) != {"Running"}:
             bad += 1
     if not run.paths(rid, "worker-loop/exit", b.loc(), n_ex, 0, n_und):
         return
